@@ -179,6 +179,26 @@ func (ev *evaluator) eval(fr *evalFrame, v ssa.Value, depth int) (interface{}, b
 		}
 		return nil, false
 	case *ssa.Extract:
+		// one result of an inlined helper that returns several
+		if call, isCall := x.Tuple.(*ssa.Call); isCall {
+			if tup, ok := ev.leaf(fr, call); ok {
+				if parts, isT := tup.([]interface{}); isT && x.Index < len(parts) {
+					return parts[x.Index], true
+				}
+				return nil, false
+			}
+			callee := call.Common().StaticCallee()
+			if callee != nil && ev.inline != nil && callee.Blocks != nil && ev.inline(callee) {
+				res, outcome := ev.run(callee, fr, call, nil, nil)
+				if outcome == "return" && x.Index < len(res) {
+					return res[x.Index], true
+				}
+				if outcome == "panic" {
+					ev.panicked = true
+				}
+			}
+			return nil, false
+		}
 		// the value / ok of a comma-ok lookup in a literal table
 		if lk, isL := x.Tuple.(*ssa.Lookup); isL && lk.CommaOk {
 			if tv, found, ok := ev.tableLookup(fr, lk, depth); ok {
